@@ -67,7 +67,7 @@ def _mk_config(J, rule_path, macro_paths, inp, binary, mode):
     )
 
 
-def run_pair(J, rule_path, macro_paths, inp, binary, fresh, want_regex=False):
+def run_pair(J, rule_path, macro_paths, inp, binary, fresh, want_regex=False, stream_only=False):
     """All nine observations of one (rule, input) pair."""
     obs = {"outcome": "ok", "res": {}}
     stage = "construct"
@@ -78,7 +78,7 @@ def run_pair(J, rule_path, macro_paths, inp, binary, fresh, want_regex=False):
             obs["regex"] = mop.regex_rule
         stage = "match"
         obs["stream"] = mop.perform_matching()
-        for mode in MODES:
+        for mode in ([] if stream_only else MODES):
             if fresh:
                 stage = "construct"
                 mop = J["MasterOfPuppets"](_mk_config(J, rule_path, macro_paths, inp, binary, mode))
@@ -113,7 +113,7 @@ def run_rule(job, ri, lis, listing_paths, tmp):
     for li in lis:
         inp, binary = listing_paths[li]
         o = run_pair(J, rule_path, macro_paths, inp, binary, job.get("fresh", False),
-                     job.get("want_regex", False))
+                     job.get("want_regex", False), job.get("stream_only", False))
         o["r"], o["l"] = ri, li
         out.append(o)
     for p in [rule_path] + macro_paths[own:]:
